@@ -76,14 +76,15 @@ func init() {
 				in.goPanic("nil certificate store dereferenced by goxmldsig")
 			}
 		}
+		var certTime *smt.Term
 		if sig != "none" {
 			// goxmldsig reads ctx.Clock once (verifyCertificate) after it has found the signature
 			if cp, _ := call.Clock.(*Ptr); cp != nil {
 				if cn, _ := cp.Obj.Ghost["clock"].(string); cn != "" {
-					in.clockNow(cn)
+					certTime = in.clockNow(cn).(*TimeV).Inst
 				}
 			} else {
-				in.wallNow("dsig with nil Clock")
+				certTime = in.wallNow("dsig with nil Clock").(*TimeV).Inst
 			}
 		}
 		switch sig {
@@ -95,6 +96,15 @@ func init() {
 		case "valid":
 			k := intGhost(in, "validate.valid.calls")
 			in.Ghost["validate.valid.calls"] = k + 1
+			// the IdP certificate of the scenarios is valid from 2000-01-01 to 2100-01-01 (as the replay certificates are):
+			// outside that window at the context's clock the signature is not honoured (L2)
+			if certTime != nil {
+				inWindow := smt.And(smt.BVSle(smt.BV(946684800000000000, 64), certTime), smt.BVSle(certTime, smt.BV(4102444800000000000, 64)))
+				if !in.Branch(inWindow) {
+					in.event("dsig: context clock outside the IdP certificate's validity period")
+					return Tuple{nilPtr, in.opaqueError("dsig-cert-window")}
+				}
+			}
 			if !storeTrustsIdP(call.Store) {
 				in.event("dsig: certificate store of the context does not hold the IdP certificate")
 				return Tuple{nilPtr, in.opaqueError("dsig-cert-not-in-store")}
